@@ -1,6 +1,7 @@
 package world
 
 import (
+	gocontext "context"
 	"errors"
 	"net/http"
 	"reflect"
@@ -62,11 +63,23 @@ const (
 	PvAbortHandler
 	PvWrapped
 	PvInt
+	PvErrSlice // an error whose dynamic type is a slice (unhashable, like validator.ValidationErrors)
+	PvMap      // a map value (unhashable)
+	PvFunc     // a func value (unhashable, not comparable)
+	PvNilPtrErr // a typed nil pointer implementing error whose Error() dereferences it
 	pvMax
 )
 
 // PanicKindNames for reports.
-var PanicKindNames = []string{"string", "error", "runtime:nil-map", "runtime:index", "struct", "http.ErrAbortHandler", "wrapped-error", "int"}
+var PanicKindNames = []string{"string", "error", "runtime:nil-map", "runtime:index", "struct", "http.ErrAbortHandler", "wrapped-error", "int", "slice-typed-error", "map", "func", "error-with-panicking-Error()"}
+
+type errList []string
+
+func (e errList) Error() string { return strings.Join(e, "; ") }
+
+type fragileErr struct{ msg string }
+
+func (e *fragileErr) Error() string { return e.msg }
 
 type panicStruct struct {
 	Tok string
@@ -105,6 +118,15 @@ func raise(kind int, tok string) {
 		panic(&wrappedErr{msg: tok, err: errors.New("inner")})
 	case PvInt:
 		panic(424242)
+	case PvErrSlice:
+		panic(errList{tok, "second"})
+	case PvMap:
+		panic(map[string]int{tok: 1})
+	case PvFunc:
+		panic(func() string { return tok })
+	case PvNilPtrErr:
+		var e *fragileErr
+		panic(e)
 	}
 	panic(tok)
 }
@@ -163,6 +185,7 @@ func (h *SimH) run(c flamego.Context, rw http.ResponseWriter, r *http.Request, t
 	}
 	if h.Final && rw != nil && h.w.Setup.FinalEcho {
 		sched.Yield(SiteAct)
+		q.ev(EvAttempt, h.HID, OpEcho, "")
 		_, _ = rw.Write([]byte(h.echo(q, c, r)))
 	}
 	if h.Pos < len(q.Rets) {
@@ -182,15 +205,27 @@ func (h *SimH) do(q *Req, c flamego.Context, rw http.ResponseWriter, r *http.Req
 	case OpYield:
 	case OpWriteHeader:
 		if rw != nil {
+			if a.A >= 100 && a.A <= 999 {
+				q.ev(EvAttempt, h.HID, int(a.Op), "")
+			}
 			rw.WriteHeader(int(a.A))
 		}
 	case OpWrite:
 		if rw != nil {
+			q.ev(EvAttempt, h.HID, int(a.Op), "")
 			_, _ = rw.Write(h.body(q, int(a.A)))
 		}
 	case OpFlush:
 		if f, ok := rw.(http.Flusher); ok {
+			q.ev(EvAttempt, h.HID, int(a.Op), "")
 			f.Flush()
+		}
+	case OpReplaceCtx:
+		if c != nil {
+			ctx, cancel := gocontext.WithCancel(c.Request().Context())
+			c.Request().Request = c.Request().WithContext(ctx)
+			q.replaceCancel(cancel)
+			q.Note("ctx-replaced")
 		}
 	case OpNext:
 		if c != nil {
@@ -247,6 +282,7 @@ func (h *SimH) do(q *Req, c flamego.Context, rw http.ResponseWriter, r *http.Req
 		raise(int(a.A), PanicToken(q.Name, h.Pos))
 	case OpEcho:
 		if rw != nil {
+			q.ev(EvAttempt, h.HID, int(a.Op), "")
 			_, _ = rw.Write([]byte(h.echo(q, c, r)))
 		}
 	case OpMark:
